@@ -50,10 +50,15 @@ def correspondence(ctx):
         lines.append("comp2 c2 %s %s" % (frames.pstr(p), frames.hx(x))); src.append(x)
     frs = frames.run_lines(plain, lines)[1]
     seeds = [(bytes.fromhex(f) if f != "-" else b"", x) for f, x in zip(frs, src) if not f.startswith("err")]
+    # legacy-format seeds (raw-block frames of v0.5 / v0.6 / v0.7, small windows): their mutants reach the legacy decoders' block loops
+    import synth
+    legacy = [synth.legacy_frame(rng) for _ in range(12 if ctx.quick() else 80)]
+    nlegacy = len(legacy)
+    seeds = seeds + legacy
     nmut = 30000 if ctx.quick() else 600000
     ops, info = [], []
     for i in range(nmut):
-        f, x = rng.choice(seeds)
+        f, x = rng.choice(seeds) if i % 8 else rng.choice(legacy)
         m = mutate(rng, f, [s[0] for s in seeds[:20]])
         cap = rng.choice([len(x), len(x), len(x) + 100, max(0, len(x) - 1), 0, 1 << 20])
         hx = frames.hx(m)
@@ -61,7 +66,7 @@ def correspondence(ctx):
         if r < 0.45:
             ops.append("dec %d %s" % (cap, hx)); info.append(("dec", m, cap))
         elif r < 0.70:
-            ops.append("decs %d %s %s %s" % (cap, hx, rng.choice(["1", "3,1,100", "100000", "7"]), rng.choice(["100000", "1", "64,5"]))); info.append(("decs", m, cap))
+            ops.append("decs %d %s %s %s" % (cap, hx, rng.choice(["1", "3,1,100", "100000", "7", "2000"]), rng.choice(["100000", "1", "64,5"]))); info.append(("decs", m, cap))
         elif r < 0.80:
             ops.append("bufless %d %s" % (cap, hx)); info.append(("bufless", m, cap))
         elif r < 0.88:
